@@ -81,12 +81,26 @@ def handleStack (case : Nat) (j : Json) : IO Unit := do
   let firstBad := (checked.find? (fun r => !r.2.1 || !r.1)).map (·.2.2) |>.getD ""
   emit case agree spec s!"stack.{jstr (jget j "engine")}.n{jnat (jget j "clients")}" (if spec then "" else "upstream-request-differs-from-client") firstBad
 
+def handleXlate (case : Nat) (j : Json) : IO Unit := do
+  let impl := jget j "impl"
+  if jstr (jget impl "start_err") != "" then
+    emit case false true "start-error" "" (jstr (jget impl "start_err")); return
+  let rs := jarr (jget impl "requests")
+  -- the translated upstream request must carry exactly this client's two nonces (system first), its model, and go to the chat path
+  let bad := rs.filter (fun r => jstr (jget r "got") != jstr (jget r "want"))
+  let answered := rs.filter (fun r => jnat (jget r "status") == 200)
+  let specBad := answered.filter (fun r => jstr (jget r "got") != jstr (jget r "want"))
+  emit case bad.isEmpty specBad.isEmpty s!"xlate.{jstr (jget j "engine")}.n{jnat (jget j "clients")}"
+    (if specBad.isEmpty then "" else "translated-upstream-request-carries-foreign-content")
+    (match bad with | [] => "" | r :: _ => s!"{bad.length} of {rs.length}: status {jnat (jget r "status")} expected echo '{jstr (jget r "want")}' got '{jstr (jget r "got")}'")
+
 def handle (j : Json) : IO Unit := do
   let case := jnat (jget j "case")
   match jstr (jget j "kind") with
   | "ops" => handleOps case j
   | "strip" => handleStrip case j
   | "stack" => handleStack case j
+  | "xlate" => handleXlate case j
   | k => emit case false true "unknown-kind" "" k
 
 def main : IO Unit := do forLines (← IO.getStdin) handle
